@@ -3,6 +3,7 @@ package main
 // SMT-LIB plumbing: sort/function declaration tracking, query assembly, solver race.
 
 import (
+	"runtime"
 	"bytes"
 	"context"
 	"fmt"
@@ -375,7 +376,34 @@ var solvers = []solverSpec{
 	{"cvc5-1.0", []string{"cvc5", "--lang=smt2", "--strings-exp", "--produce-models"}},
 }
 
-var solverSem = make(chan struct{}, 14)
+var solverSem = make(chan struct{}, solverSlots())
+
+func solverSlots() int {
+	n := runtime.NumCPU() - 2
+	if n < 3 {
+		n = 3
+	}
+	return n
+}
+
+// loadScale: how much longer than nominal a solver may run, from the 1-minute load average per core (1 on an idle
+// machine, up to 6 on a heavily loaded one).
+func loadScale() float64 {
+	data, err := os.ReadFile("/proc/loadavg")
+	if err != nil {
+		return 1
+	}
+	var l1 float64
+	fmt.Sscan(string(data), &l1)
+	f := l1 / float64(runtime.NumCPU())
+	if f < 1 {
+		return 1
+	}
+	if f > 6 {
+		return 6
+	}
+	return f
+}
 
 var scratchDir string
 var scratchOnce sync.Once
@@ -420,11 +448,12 @@ func Solve(script string, timeout time.Duration, wantModel bool) SolverResult {
 	}
 	defer os.Remove(file)
 
-	ctx, cancel := context.WithTimeout(context.Background(), timeout)
+	// the race: every solver gets the full time budget from the moment it actually starts (waiting for a free slot
+	// does not count), and the budget grows with the machine's load so that a busy machine does not turn proofs into
+	// timeouts
+	timeout = time.Duration(float64(timeout) * loadScale())
+	parent, cancel := context.WithCancel(context.Background())
 	defer cancel()
-	type res struct {
-		r SolverResult
-	}
 	ch := make(chan SolverResult, len(solvers))
 	start := time.Now()
 	for _, s := range solvers {
@@ -432,6 +461,12 @@ func Solve(script string, timeout time.Duration, wantModel bool) SolverResult {
 		go func() {
 			solverSem <- struct{}{}
 			defer func() { <-solverSem }()
+			if parent.Err() != nil {
+				ch <- SolverResult{Solver: s.name, Status: "timeout"}
+				return
+			}
+			ctx, cancelOne := context.WithTimeout(parent, timeout)
+			defer cancelOne()
 			t0 := time.Now()
 			argv := append(append([]string{}, s.argv[1:]...), file)
 			cmd := exec.CommandContext(ctx, s.argv[0], argv...)
